@@ -8,6 +8,7 @@ package vrt
 import (
 	"encoding/json"
 	"fmt"
+	"io"
 	"os"
 	"strings"
 )
@@ -149,6 +150,40 @@ func SetStdin(s string) {
 }
 
 func StdinChunks() {}
+
+var capFile, capSaved *os.File
+
+// CaptureStart redirects what the program prints (os.Stdout) into a buffer.
+func CaptureStart() {
+	f, err := os.CreateTemp("", "vrtout")
+	if err != nil {
+		panic(err)
+	}
+	os.Remove(f.Name())
+	if capSaved == nil {
+		capSaved = os.Stdout
+	}
+	capFile = f
+	os.Stdout = f
+}
+
+// Captured returns what was written since CaptureStart, up to the interpreter's runtime error
+// report (which is not program output), and stops capturing.
+func Captured() string {
+	if capFile == nil {
+		return ""
+	}
+	os.Stdout = capSaved
+	capFile.Seek(0, 0)
+	b, _ := io.ReadAll(capFile)
+	capFile.Close()
+	capFile = nil
+	s := string(b)
+	if i := strings.Index(s, "RUNTIME ERROR : "); i >= 0 {
+		s = s[:i]
+	}
+	return s
+}
 
 // Run replays the harness named in $VRT_REPLAY and returns a one-line outcome.
 func Run(harnesses map[string]func()) (outcome string) {
